@@ -380,7 +380,7 @@ Example C04_wfpd_blocks_sat : wfpd (DBlockDiag 2 [:: DDiag 1 [:: 1 : F]; DDiag 1
 Proof. exact: wfpd_blocks_sat. Qed.
 (* the structured Kronecker route (per-factor solves) does return a value *)
 Example C04_kron_structured_returns :
-  let s := MkSettings 0 true 1000 15 2000 false false 8 3 in
+  let s := MkSettings 0 true 1000 15 2000 false false 8 3 100 false false in
   exists X, alg_solve RA s (DKron [:: DDiag 2 [:: 1; 1 : F]; DIdentity F 1]) [:: [:: 1; 0]] None = Some X.
 Proof. by eexists; rewrite /alg_solve /select_solve /=; reflexivity. Qed.
 
@@ -454,7 +454,7 @@ Proof. exact: select_cg_only_when. Qed.
 
 (* the threshold is observable (non-vacuity): just above it the generic class switches to CG *)
 Example C04_select_threshold :
-  let s := MkSettings 5 true 1000 15 2000 false false 8 3 in
+  let s := MkSettings 5 true 1000 15 2000 false false 8 3 100 false false in
   select_solve s (CGeneric 5) = MCholesky (PDense 5) /\ select_solve s (CGeneric 6) = MCG false 0.
 Proof. by []. Qed.
 
